@@ -70,7 +70,7 @@ func runC14(c *Ctx) {
 	r.Rule("hunt-admin", "StartHunt filters and idempotence; StopHunt; the hunt list removes the entry found; 6-byte MACs only, own copy, one loop per MAC", 10)
 	runNDPSiblings(c)
 	runNDPWideArith(c)
-	r.Rule("router-fields", "each Router field comes from the like-meaning RA getter and is updated by every advertisement", 20)
+	r.Rule("router-fields", "each Router field comes from the like-meaning RA getter and is updated by every advertisement", 21)
 
 	rel := "handlers/icmp_spoofer"
 	loop := c.A.Method(rel, "Handler6", "spoofLoop")
@@ -404,6 +404,43 @@ func runC14(c *Ctx) {
 		})
 		r.Add(core.Obligation{Rule: "router-fields", Key: "router-fields every valid advertisement reaches the table", Func: core.FuncName(pp), Pos: c.P.Pos(core.PosOf(site.(ssa.Instruction))), Status: us,
 			Basis: "every path from the advertisement's IsValid to a nil return passes findOrCreateRouter", Detail: det})
+	}
+	// the search list option is padded to a multiple of eight with zero octets, anything from none to seven of them. After
+	// a name, the decoder asks whether what is left is a single octet before it treats "fewer than two octets left" as a
+	// malformed label: otherwise a list whose names leave exactly one octet of padding is refused and the router is
+	// recorded without the search list it advertises
+	if fn := c.P.Method("", "DNSSearchList", "unmarshal"); fn != nil {
+		var endOfName, refusal ssa.Instruction
+		var refusalIf *ssa.If
+		core.EachInstr(fn, func(i ssa.Instruction) {
+			if cl, ok := i.(*ssa.Call); ok && cl.Common().StaticCallee() != nil && core.FuncName(cl.Common().StaticCallee()) == "strings.Join" {
+				endOfName = i
+			}
+			if iff, ok := i.(*ssa.If); ok && refusalIf == nil && regexp.MustCompile(`^\(len\(.*\)<2\)$`).MatchString(norm(iff.Cond)) {
+				// the first "fewer than two left" test: its true edge returns the error
+				if len(iff.Block().Succs) == 2 {
+					for _, j := range iff.Block().Succs[0].Instrs {
+						if rt, isR := j.(*ssa.Return); isR {
+							refusalIf, refusal = iff, rt
+						}
+					}
+				}
+			}
+		})
+		st, det := core.Undecided, "the end of a name (strings.Join) or the 'fewer than two octets left' refusal of DNSSearchList.unmarshal was not recognised"
+		if endOfName != nil && refusal != nil {
+			asksOne := func(j ssa.Instruction) bool {
+				iff, ok := j.(*ssa.If)
+				return ok && iff != refusalIf && regexp.MustCompile(`len\(.*\)(==1|<=1|<2)\)`).MatchString(norm(iff.Cond))
+			}
+			st, det = core.Proved, ""
+			if reachesWithout(endOfName, refusal, asksOne) {
+				st = core.Violated
+				det = "after a name DNSSearchList.unmarshal can reach the 'fewer than two octets left' refusal without having asked whether a single (padding) octet is left: names whose label octets total 7 mod 8 leave exactly one octet of padding, the option is refused and the router's search list is recorded empty"
+			}
+		}
+		r.Add(core.Obligation{Rule: "router-fields", Key: "router-fields DNSSearchList accepts one octet of padding", Func: core.FuncName(fn), Pos: c.P.Pos(fn.Pos()), Status: st,
+			Basis: "every path from the end of a name to the short-remainder refusal tests for a single remaining octet", Detail: det})
 	}
 	// the route prefix recorded has every byte that holds a valid bit: ceil(PrefixLength/8) bytes (or the whole field),
 	// not floor - a /60 route keeps its eighth byte
